@@ -18,11 +18,14 @@ theorem record_types : Facts.C19.typeChangeCipherSpec = 0x14 ∧ Facts.C19.typeH
     ∧ Facts.C19.typeApplication = 0x17 := by decide
 theorem server_random_at_11 : Facts.C19.serverRandomOffset = 11 ∧ Facts.C19.maxHandshakeRecords = 16 := by decide
 theorem writes_version_12 : Facts.C19.writesVersion12 = true ∧ Facts.C19.version12 = [3, 3] := by decide
-/-- Tie: `FakeTLS.Write` in the current source loops over records of at most 65 535 bytes. -/
-theorem write_splits : Facts.C19.writeSplits = true := by decide
+/-- Tie: `FakeTLS.Write` in the current source loops, one record per chunk, advancing by the chunk;
+the translated cut condition / position mean "more than 65 535 bytes" / "at 65 535" for every length. -/
+theorem write_splits : Facts.C19.writeSplits = true ∧ (∀ n : Nat, splitNeeded n = decide (n > 65535))
+    ∧ splitAt = 65535 := ⟨by decide, splitNeeded_eq, splitAt_eq⟩
+theorem client_random_at_11 : Facts.C19.clientRandomOffset = 11 ∧ Facts.C19.clientRandomLength = 32 := by decide
 
 theorem writeAll_eq (ws : List Bytes) : writeAll ws = writeAllWith writeSplit false ws := by
-  have : writeOne = writeSplit := by funext b; simp [writeOne, write_splits]
+  have : writeOne = writeSplit := by funext b; simp [writeOne, write_splits.1]
   simp [writeAll, this]
 
 /-- **Every record stays within the 16-bit length**: the connection bytes are a sequence of records
@@ -96,6 +99,25 @@ theorem serverHello_wrong_key_rejected (hmac : Bytes → Bytes → Bytes) (cr se
   simp only
   rw [hmade]
   simp [hdiff]
+
+/-- **ClientHello.**  `writeClientHello` changes only the 32-byte random field of the generated
+record, returns that field as the client random, and makes it the HMAC of the record (random zeroed)
+under the secret with the little-endian Unix time XORed into its last four bytes: the equation an
+MTProxy server verifies.  (`hmac` is a parameter; only its 32-byte output length is used.) -/
+theorem clientHello_digest (hmac : Bytes → Bytes → Bytes) (hlen : ∀ k m, (hmac k m).length = 32)
+    (secret : Bytes) (now : Int) (record out rnd : Bytes)
+    (h : finishClientHello hmac secret now record = .ok (out, rnd)) :
+    out.length = record.length ∧ zeroRandom out = zeroRandom record ∧ (out.drop 11).take 32 = rnd ∧
+    xorBytes rnd (hmac secret (zeroRandom out)) = List.replicate 28 0 ++ tsBytes now :=
+  finishClientHello_spec hmac secret now record out rnd hlen h
+
+/-- It succeeds on every record that contains the random field. -/
+theorem clientHello_succeeds (hmac : Bytes → Bytes → Bytes) (secret : Bytes) (now : Int) (record : Bytes)
+    (h : 43 ≤ record.length) : ∃ out rnd, finishClientHello hmac secret now record = .ok (out, rnd) := by
+  unfold finishClientHello
+  have : ¬ record.length < clientRandomOffset + clientRandomLength := by rw [cro, crl]; omega
+  simp only [this, if_false]
+  exact ⟨_, _, rfl⟩
 
 /-! ### The pinned tree violated the property (defect D7) -/
 
